@@ -359,6 +359,27 @@ fn one_case(ctx: &mut Ctx, index: u64, bytes: &[u8], class: &str, r: &mut Rng) {
                 return;
             }
         };
+        // what is read back may have gone through any sink: for a sample of the cases the edited map is written
+        // through a writer that accepts a few bytes per call, and that text is the one decoded
+        let edited_txt = if index % 5 == 3 {
+            use crate::obs::io::{FaultWriter, WriteFault};
+            let mut w = FaultWriter::new(WriteFault::None, usize::MAX);
+            w.short = vec![[1usize, 4, 7][(index as usize / 5) % 3]];
+            ctx.count("edited_maps_written_through_a_short_writing_sink");
+            match m.encode(&mut w) {
+                Ok(()) if w.out == edited_txt.as_bytes() => edited_txt,
+                Ok(()) => {
+                    ctx.violation("sink_changes_text", format!("a sink accepting {} byte(s) per call received different text than encode_to_string ({} vs {} bytes; edits: {described})", w.short[0], w.out.len(), edited_txt.len()), index, bytes);
+                    return;
+                }
+                Err(e) => {
+                    ctx.violation("encode_err_in_memory", format!("encode into a short-writing in-memory sink failed: {e:?}"), index, bytes);
+                    return;
+                }
+            }
+        } else {
+            edited_txt
+        };
         let Ok(mut got) = rosu_map::from_str::<Beatmap>(&edited_txt) else {
             ctx.violation("err_from_memory", "decoding the edited encoding failed".into(), index, bytes);
             return;
